@@ -28,8 +28,24 @@ deriving DecidableEq, Repr, Inhabited
 def Scope.level : Scope → Nat
   | .test => 1 | .suite => 2 | .session => 3 | .preRun => 4
 
-inductive ExcKind | exc | abortTest | abortSuite | abortAll | interrupted
+/-- how a unit of user code is left by an exception, as the runner and `lcc.Thread.run` classify it.
+    `baseExc`: a `BaseException` that is NOT an `Exception` — `sys.exit()` in user code (`SystemExit`), a
+    `GeneratorExit`, a project's own `BaseException` subclass.  In a unit run by the task's own thread the runner
+    catches `BaseException` (fix D38) and `handle_exception` treats it like any unexpected exception; in the
+    target of an `lcc.Thread`, `Thread.run` only has `except Exception`: nothing is logged, the `finally` clause
+    ends the thread's step, the thread dies and the test goes on (`ExcKind.caughtByThread`). -/
+inductive ExcKind | exc | abortTest | abortSuite | abortAll | interrupted | baseExc
 deriving DecidableEq, Repr, Inhabited
+
+/-- `lcc.Thread.run`: `except Exception:` — is what ended the thread's target logged as an error? -/
+def ExcKind.caughtByThread : ExcKind → Bool
+  | .baseExc => false
+  | _ => true
+
+/-- does `Thread.run` log an error for this outcome of the thread's target? (`none` = the target returned) -/
+def threadLogs : Option ExcKind → Bool
+  | some k => k.caughtByThread
+  | none => false
 
 /-- The CLASS of an exception object raised by user code: a plain exception, one of the three `Abort*`
     classes of `lemoncheesecake.exceptions`, or a project-defined SUBCLASS of one of them
@@ -358,9 +374,11 @@ def execActs (fuel : Nat) (role : Nat) (u : UnitId) (i : Nat) : List Act → M (
           sop role (.threadCreate c)
           sop c .threadRun
           let r ← execScript fuel c (.th u i) inner
-          if r.isSome then
-            -- `Thread.run`: `except Exception: self._session.log_error(...)` (the session method: no interrupt check)
+          if threadLogs r then
+            -- `Thread.run`: `except Exception: self._session.log_error(...)` (the session method: no interrupt check);
+            -- a BaseException that is no Exception passes through it unlogged
             sop c (.log .error "")
+          -- `finally: self._session.end_step()`: whatever ended the target — return, Exception, BaseException
           sop c .threadEnd
           pure none
         | .attachBlock inner => do
@@ -377,7 +395,7 @@ def execActs (fuel : Nat) (role : Nat) (u : UnitId) (i : Nat) : List Act → M (
       | some k =>
         emitUser role u (match k with
           | .exc => "raise:exc" | .abortTest => "raise:AbortTest" | .abortSuite => "raise:AbortSuite"
-          | .abortAll => "raise:AbortAllTests" | .interrupted => "raise:interrupted")
+          | .abortAll => "raise:AbortAllTests" | .interrupted => "raise:interrupted" | .baseExc => "raise:exc")
         return some k
       | none => execActs fuel role u (i + 1) rest
 /-- a unit of user code -/
